@@ -11,7 +11,10 @@
   permutations (`rv'`, `rt'`).  The operations `o : DOps S` (float64 `+ × ÷ <`) are
   arbitrary: the union / intersection / formula laws hold whatever they return (so
   also for ±Inf and NaN); only "best-first ranking" and "is the maximum" need an order
-  (`StrictWeak`: true of floats without NaN).  Purity ("none of them mutates its
+  (`StrictWeak`: true of floats without NaN).  Where a modality's scores contain a NaN
+  "best-first" is not defined; there only a bijective 0-based ranking is claimed
+  (`scoreMapToRanks_bijection`, `fusion_rrf_any_scores`) — and only that is demanded of
+  the implementation by the correspondence run.  Purity ("none of them mutates its
   inputs") is trivial for the functional model; for the Go code it is checked by the
   correspondence run (inputs compared before/after every call).
 -/
@@ -164,39 +167,20 @@ theorem fusion_order_independent (o : DOps S) (wv wt : S) {v v' t t' : List (Id 
 
 /-! ## reciprocal-rank fusion -/
 
-/-- `scoreMapToRanks` ranks by position in a best-first ordering of the map that is
-    consistent with the scores (ascending for distances, descending for relevance),
-    whatever the iteration order; ranks are 0-based. -/
-theorem scoreMapToRanks_spec (o : DOps S) (sw : o.StrictWeak) (m : List (Id × S))
-    (asc : Bool) (hm : NodupKeys m) :
-    IsRanking o asc m (rankOrder o m asc) ∧
+/-- For ANY comparison — also one that is not an order (NaN among the scores) —
+    `scoreMapToRanks` returns a bijection onto `0 … n−1`: the ranks are the positions in a
+    list that contains every entry of the map exactly once.  (No panic, no duplicate
+    rank, no missing id; nothing is claimed about where entries are placed.) -/
+theorem scoreMapToRanks_bijection (o : DOps S) (m : List (Id × S)) (asc : Bool)
+    (hm : NodupKeys m) :
+    (rankOrder o m asc).Perm m ∧
     NodupKeys (scoreMapToRanks o m asc) ∧
     ∀ id, (scoreMapToRanks o m asc).lookup id = rankIn id (rankOrder o m asc) := by
   have hperm : (rankOrder o m asc).Perm m := exSort_perm _ _
   have hσ : NodupKeys (rankOrder o m asc) := by
     unfold NodupKeys at *
     exact ((hperm.map (fun p : Id × S => p.1)).nodup_iff).2 hm
-  refine ⟨⟨hperm, ?_⟩, ?_, ?_⟩
-  · -- sorted: the exchange sort sorts under a strict weak order
-    apply exSort_sorted
-    · intro a b
-      cases asc with
-      | true =>
-        simp only [shouldSwap, if_true]
-        cases h : o.lt b.2 a.2 with
-        | false => exact Or.inl rfl
-        | true => exact Or.inr (sw.asymm _ _ h)
-      | false =>
-        simp only [shouldSwap, Bool.false_eq_true, if_false]
-        cases h : o.lt a.2 b.2 with
-        | false => exact Or.inl rfl
-        | true => exact Or.inr (sw.asymm _ _ h)
-    · intro a b c
-      cases asc with
-      | true => simp only [shouldSwap, if_true]; exact fun h1 h2 => sw.negTrans _ _ _ h1 h2
-      | false =>
-        simp only [shouldSwap, Bool.false_eq_true, if_false]
-        exact fun h1 h2 => sw.negTrans _ _ _ h2 h1
+  refine ⟨hperm, ?_, ?_⟩
   · unfold scoreMapToRanks
     split
     · exact nodupKeys_nil
@@ -214,6 +198,72 @@ theorem scoreMapToRanks_spec (o : DOps S) (sw : o.StrictWeak) (m : List (Id × S
         lookup_rankPairs]
       cases rankIn id (rankOrder o m asc) <;> simp [List.lookup]
 
+/-- `scoreMapToRanks` ranks by position in a best-first ordering of the map that is
+    consistent with the scores (ascending for distances, descending for relevance),
+    whatever the iteration order; ranks are 0-based.  Needs the comparison to be a
+    strict weak order (no NaN): otherwise "best-first" is not defined. -/
+theorem scoreMapToRanks_spec (o : DOps S) (sw : o.StrictWeak) (m : List (Id × S))
+    (asc : Bool) (hm : NodupKeys m) :
+    IsRanking o asc m (rankOrder o m asc) ∧
+    NodupKeys (scoreMapToRanks o m asc) ∧
+    ∀ id, (scoreMapToRanks o m asc).lookup id = rankIn id (rankOrder o m asc) := by
+  obtain ⟨hperm, h2, h3⟩ := scoreMapToRanks_bijection o m asc hm
+  refine ⟨⟨hperm, ?_⟩, h2, h3⟩
+  -- sorted: the exchange sort sorts under a strict weak order
+  apply exSort_sorted
+  · intro a b
+    cases asc with
+    | true =>
+      simp only [shouldSwap, if_true]
+      cases h : o.lt b.2 a.2 with
+      | false => exact Or.inl rfl
+      | true => exact Or.inr (sw.asymm _ _ h)
+    | false =>
+      simp only [shouldSwap, Bool.false_eq_true, if_false]
+      cases h : o.lt a.2 b.2 with
+      | false => exact Or.inl rfl
+      | true => exact Or.inr (sw.asymm _ _ h)
+  · intro a b c
+    cases asc with
+    | true => simp only [shouldSwap, if_true]; exact fun h1 h2 => sw.negTrans _ _ _ h1 h2
+    | false =>
+      simp only [shouldSwap, Bool.false_eq_true, if_false]
+      exact fun h1 h2 => sw.negTrans _ _ _ h2 h1
+
+/-- Reciprocal-rank fusion in its most general form: for every iteration order of the
+    score maps and of the intermediate rank maps, and ANY comparison, the result is
+    `Σ 1/(K + rank)` for rankings that list every entry of a modality exactly once
+    (0-based); a modality's ranking is best-first whenever the model's exchange sort
+    sorts it (`hV`, `hT` — discharged below for every strict weak order). -/
+theorem fusion_rrf_general (o : DOps S) (K : S) (v t : List (Id × S))
+    (hv : NodupKeys v) (ht : NodupKeys t) (rv' rt' : List (Id × Nat))
+    (pv : rv'.Perm (scoreMapToRanks o v true)) (pt : rt'.Perm (scoreMapToRanks o t false))
+    (strictV strictT : Bool)
+    (hV : strictV = true → BestFirst o true (rankOrder o v true))
+    (hT : strictT = true → BestFirst o false (rankOrder o t false)) :
+    RRFSpecW o K v t (rrfFrom o K rv' rt') strictV strictT := by
+  obtain ⟨rkv, nkv, lkv⟩ := scoreMapToRanks_bijection o v true hv
+  obtain ⟨rkt, nkt, lkt⟩ := scoreMapToRanks_bijection o t false ht
+  have nv' : NodupKeys rv' := by
+    unfold NodupKeys at *; exact ((pv.map (fun p : Id × Nat => p.1)).nodup_iff).2 nkv
+  have nt' : NodupKeys rt' := by
+    unfold NodupKeys at *; exact ((pt.map (fun p : Id × Nat => p.1)).nodup_iff).2 nkt
+  refine ⟨rankOrder o v true, rankOrder o t false, ⟨rkv, hV⟩, ⟨rkt, hT⟩, ?_⟩
+  intro id
+  rw [rrfFrom_lookup o K rv' rt' nv' nt' id, lookup_perm nv' pv id, lookup_perm nt' pt id,
+    lkv id, lkt id]
+  rfl
+
+/-- With unordered scores (NaN) in a modality nothing is promised about the placement:
+    reciprocal-rank fusion still is `Σ 1/(K + rank)` for SOME bijective 0-based ranking of
+    each modality — any comparison whatsoever, no hypothesis. -/
+theorem fusion_rrf_any_scores (o : DOps S) (K : S) (v t : List (Id × S))
+    (hv : NodupKeys v) (ht : NodupKeys t) (rv' rt' : List (Id × Nat))
+    (pv : rv'.Perm (scoreMapToRanks o v true)) (pt : rt'.Perm (scoreMapToRanks o t false)) :
+    RRFSpecW o K v t (rrfFrom o K rv' rt') false false :=
+  fusion_rrf_general o K v t hv ht rv' rt' pv pt false false
+    (fun h => by cases h) (fun h => by cases h)
+
 /-- **Reciprocal-rank fusion** assigns `Σ 1/(K + rank)` over the modalities in which the
     id occurs, with 0-based ranks taken best-first within each modality (vector
     ascending, text descending) in SOME ordering consistent with the scores — for every
@@ -222,18 +272,10 @@ theorem scoreMapToRanks_spec (o : DOps S) (sw : o.StrictWeak) (m : List (Id × S
 theorem fusion_rrf (o : DOps S) (sw : o.StrictWeak) (K : S) (v t : List (Id × S))
     (hv : NodupKeys v) (ht : NodupKeys t) (rv' rt' : List (Id × Nat))
     (pv : rv'.Perm (scoreMapToRanks o v true)) (pt : rt'.Perm (scoreMapToRanks o t false)) :
-    RRFSpec o K v t (rrfFrom o K rv' rt') := by
-  obtain ⟨rkv, nkv, lkv⟩ := scoreMapToRanks_spec o sw v true hv
-  obtain ⟨rkt, nkt, lkt⟩ := scoreMapToRanks_spec o sw t false ht
-  have nv' : NodupKeys rv' := by
-    unfold NodupKeys at *; exact ((pv.map (fun p : Id × Nat => p.1)).nodup_iff).2 nkv
-  have nt' : NodupKeys rt' := by
-    unfold NodupKeys at *; exact ((pt.map (fun p : Id × Nat => p.1)).nodup_iff).2 nkt
-  refine ⟨rankOrder o v true, rankOrder o t false, rkv, rkt, ?_⟩
-  intro id
-  rw [rrfFrom_lookup o K rv' rt' nv' nt' id, lookup_perm nv' pv id, lookup_perm nt' pt id,
-    lkv id, lkt id]
-  rfl
+    RRFSpec o K v t (rrfFrom o K rv' rt') :=
+  (rrfSpecW_true o K v t _).1 (fusion_rrf_general o K v t hv ht rv' rt' pv pt true true
+    (fun _ => (scoreMapToRanks_spec o sw v true hv).1.2)
+    (fun _ => (scoreMapToRanks_spec o sw t false ht).1.2))
 
 /-- … in particular for the model of `Combine` itself. -/
 theorem fusion_rrf_combine (o : DOps S) (sw : o.StrictWeak) (K : S) (v t : List (Id × S))
@@ -390,6 +432,13 @@ example : RRFSpec natOps 1 vEx tEx (rrfFrom natOps 1 [(1, 2), (2, 0), (3, 1)] [(
 example : checkRanks natOps false tEx [(2, 1), (3, 2), (4, 0)] = true := by decide
 example : checkRanks natOps false tEx [(2, 1), (3, 0), (4, 2)] = false := by decide   -- worst first
 example : checkRanks natOps false tEx [(2, 2), (3, 2), (4, 1)] = false := by decide   -- 1-based
+-- the non-strict checker (a NaN in the modality): any bijection onto 0 … n−1 is accepted,
+-- a duplicate / missing / 1-based rank is still rejected; the strict one is `checkRanks`
+example : checkRanksW natOps false false tEx [(2, 1), (3, 0), (4, 2)] = true := by decide
+example : checkRanksW natOps false false tEx [(2, 2), (3, 2), (4, 1)] = false := by decide
+example : checkRanksW natOps false false tEx [(2, 1), (3, 2), (4, 3)] = false := by decide
+example : checkRanksW natOps false false tEx [(2, 1), (3, 0)] = false := by decide
+example : checkRanksW natOps false true tEx [(2, 1), (3, 0), (4, 2)] = false := by decide
 -- merge: duplicates keep the highest score; nothing for an empty input
 example : mergeResults (fun a b : Nat => decide (a < b)) [⟨5, 2⟩, ⟨6, 9⟩, ⟨5, 7⟩, ⟨5, 3⟩, ⟨6, 1⟩] = [⟨5, 7⟩, ⟨6, 9⟩] := by
   decide
